@@ -802,3 +802,9 @@ package tds
 //@   ensures [password-clear-otherwise] err == nil && !encrypting(config.Encrypt) ==> recbuf(pkg).$wire[92] == len(config.DSN.Password) && (forall k int :: 0 <= k && k < len(config.DSN.Password) ==> recbuf(pkg).$wire[62 + k] == sat(config.DSN.Password, k))
 //@   ensures [remote-password-slot-empty] err == nil ==> (forall k int :: 0 <= k && k <= 255 ==> recbuf(pkg).$wire[202 + k] == 0)
 //@   ensures [tds-version] err == nil ==> recbuf(pkg).$wire[458] == 5 && recbuf(pkg).$wire[459] == 0 && recbuf(pkg).$wire[460] == 0 && recbuf(pkg).$wire[461] == 0
+//@ # what the receive path hands to the consumer (C02 / C03 / C14): only completely parsed
+//@ # packages, and the synthetic final DONE only at the end of a message whose last
+//@ # delivered package was not already a final DONE
+//@ func (*Channel).tryParsePackage returns (ok)
+//@   onsend [only-parsed-or-synthetic-done] sent.$parsed || (is(sent, *DonePackage) && as(sent, *DonePackage).Status == 0)
+//@   onsend [synthetic-done-only-at-end-of-message] !sent.$parsed ==> tdsChan.queueRx.recvEOM && tdsChan.queueRx.$r == tdsChan.queueRx.$end && !(is(tdsChan.lastPkgRx, *DonePackage) && as(tdsChan.lastPkgRx, *DonePackage).Status == 0)
